@@ -705,6 +705,33 @@ def s_init_input(b: MB):
                 b.tag("initinput_dropout_ratio")
 
 
+def s_guarded_rules(b: MB):
+    """Rule families that DO test `is_graph_input` on the clean tree, fed an overridable default: successive
+    Clip / Relu fusions whose bounds include an initializer that is also a graph input.  The rule must refuse; if it
+    does not, the override run tells."""
+    x = b.pick(lambda u: dyn_f(u) and u.static() and u.numel() > 0)
+    if x is None:
+        return
+    rng = b.rng
+    lo = b.add_init(np.array(rng.choice([-1.0, 0.5]), dtype=np.float32), as_input=True, override=np.array(-3.0, dtype=np.float32))
+    hi = b.const(np.array(rng.choice([2.0, 3.5]), dtype=np.float32))
+    kind = rng.choice(["clipclip_first", "clipclip_second", "relu_clip", "clip_relu"])
+    lo2, hi2 = b.const(np.array(-2.0, dtype=np.float32)), b.const(np.array(4.0, dtype=np.float32))
+    if kind == "clipclip_first":
+        y = b.node("Clip", [x, lo, hi], TP.FLOAT, x.shape, const=False)
+        b.node("Clip", [y, lo2, hi2], TP.FLOAT, x.shape, const=False)
+    elif kind == "clipclip_second":
+        y = b.node("Clip", [x, lo2, hi2], TP.FLOAT, x.shape, const=False)
+        b.node("Clip", [y, lo, hi], TP.FLOAT, x.shape, const=False)
+    elif kind == "relu_clip":
+        y = b.node("Relu", [x], TP.FLOAT, x.shape, const=False)
+        b.node("Clip", [y, lo, hi], TP.FLOAT, x.shape, const=False)
+    else:
+        y = b.node("Clip", [x, lo, hi], TP.FLOAT, x.shape, const=False)
+        b.node("Relu", [y], TP.FLOAT, x.shape, const=False)
+    b.tag("guarded_" + kind)
+
+
 def s_const_nodes(b: MB):
     r = b.rng.random()
     if r < 0.3:
@@ -729,8 +756,61 @@ def s_const_nodes(b: MB):
 SNIPPETS = [
     (s_elementwise, 5), (s_const_arith, 4), (s_transpose_const, 2), (s_cast, 4), (s_shape_chain, 6),
     (s_reshape_const, 3), (s_concat_zero, 2), (s_dropout, 3), (s_identity, 3), (s_sequence, 3),
-    (s_if, 4), (s_gates, 2), (s_init_input, 2), (s_const_nodes, 2), (s_loop_scan, 2),
+    (s_if, 4), (s_gates, 2), (s_init_input, 2), (s_const_nodes, 2), (s_loop_scan, 2), (s_guarded_rules, 1),
 ]
+
+
+def s_fragment_a(b: MB):
+    """One step of a model that stays inside the domain of the end-to-end theorem `fold_fragmentA_preserves`:
+    operators without a partial evaluator (so no Add/Abs/Reshape/…), Constant nodes, Identity, one-operand Concat,
+    inference-mode Dropout with one output, Cast, CastLike."""
+    rng = b.rng
+    r = rng.random()
+    x = b.pick(dyn_f)
+    if r < 0.2 or x is None:
+        shape = rng.choice([[], [2], [3], [2, 3]])
+        a, c2 = b.const(b.rand_array(TP.FLOAT, shape)), b.const(b.rand_array(TP.FLOAT, shape))
+        v = b.node(rng.choice(["Mul", "Sub", "Div"]), [a, c2], TP.FLOAT, shape)
+        if rng.random() < 0.5:
+            v = b.node("Neg", [v], TP.FLOAT, shape) if rng.random() < 0.5 else b.node("Mul", [v, a], TP.FLOAT, shape)
+        y = b.pick(lambda u: dyn_f(u) and (u.shape == shape or shape in ([], [1])))
+        if y is not None:
+            b.node("Mul", [y, v], TP.FLOAT, y.shape)
+    elif r < 0.35:
+        op = rng.choice(["Neg", "Sigmoid", "Tanh", "Floor", "Relu", "Exp"])
+        b.node(op, [x], TP.FLOAT, x.shape)
+    elif r < 0.5:
+        y = b.node("Identity", [x], TP.FLOAT, x.shape, const=False)
+        if rng.random() < 0.6:
+            b.node(rng.choice(["Neg", "Relu"]), [y], TP.FLOAT, x.shape)
+    elif r < 0.6:
+        b.node("Concat", [x], TP.FLOAT, x.shape, axis=0, const=False)
+    elif r < 0.72:
+        ins = [x] if rng.random() < 0.5 else [x, b.const(np.array(rng.choice([0.5, 0.0]), dtype=np.float32))]
+        b.node("Dropout", ins, TP.FLOAT, x.shape, const=False)
+    elif r < 0.86:
+        if rng.random() < 0.5:
+            b.node("Cast", [x], TP.FLOAT, x.shape, to=TP.FLOAT, const=False)
+        else:
+            y = b.node("Cast", [x], TP.INT64, x.shape, to=TP.INT64, const=False)
+            b.node("Cast", [y], TP.FLOAT, x.shape, to=TP.FLOAT, const=False)
+    else:
+        w = b.pick(lambda u: u.kind == "tensor" and u.dt in (TP.FLOAT, TP.INT64) and u.name != x.name)
+        if w is not None:
+            b.node("CastLike", [x, w], w.dt, x.shape, const=False)
+    b.tag("fragment_a")
+
+
+def gen_model_fragment_a(rng, opset=None):
+    """A model all of whose nodes lie in fragment A (the driver confirms it: `thm:fragmentA`)."""
+    b = MB(rng, opset or rng.choice([18, 18, 17, 20]))
+    base = rng.choice([[2, 3], [3], ["N", 3], [2, "M"], ["N"]])
+    b.add_input(TP.FLOAT, base)
+    if rng.random() < 0.5:
+        b.add_input(TP.FLOAT, base)
+    for _ in range(rng.randint(3, 8)):
+        s_fragment_a(b)
+    return finish(b)
 
 
 def gen_model(rng, opset=None):
